@@ -53,7 +53,7 @@ if os.environ.get('SEED_SCRATCH'):
     shutil.rmtree(scratch_repo, ignore_errors=True)
     os.makedirs(scratch_repo)
     subprocess.run(f'git -C /repo archive HEAD | tar -x -C {scratch_repo}; cp /repo/Cargo.lock {scratch_repo}/ 2>/dev/null; cd {scratch_repo} && git init -q . && git apply {dst}/patch.diff', shell=True, check=True)
-    cenv = dict(os.environ, VERIF_REPO=scratch_repo)
+    cenv = dict(os.environ, VERIF_REPO=scratch_repo, VERIF_EVIDENCE_DIR='/var/tmp/seed_evidence')
 else:
     assert subprocess.run('git -C /repo status --porcelain', shell=True, capture_output=True, text=True).stdout.strip() == '', '/repo not clean'
     subprocess.run(f'git -C /repo apply {dst}/patch.diff', shell=True, check=True)
